@@ -128,17 +128,26 @@ def run(ctx: Ctx):
     if not ok:
         ctx.violation("theorems of Properties/C14.v no longer check", {"broken": "Properties/C14.v"}, found_input=False)
 
-    broken_T = translator_stage(ctx) if not ctx.replay else []
+    rp = json.loads(open(ctx.replay).read()) if ctx.replay else None
+    # the translator stage and the witnesses are skipped only when one concrete case is replayed
+    replay_one_case = rp is not None and "case" in rp and "rules" in rp.get("case", {})
+    broken_T = [] if replay_one_case else translator_stage(ctx)
 
-    if ctx.replay:
-        rp = json.loads(open(ctx.replay).read())
-        cases = [rp["case"]] if "case" in rp else []
+    if replay_one_case:
+        cases = [rp["case"]]
+    elif rp is not None:
+        cases = []
     else:
         n = 70 if ctx.quick else 1000
         cases = [X.gen_case(ctx.rng, "sqlite" if i % 3 == 2 else "duckdb") for i in range(n)]
 
-    # dedicated replay of the recorded finding (kept out of the ordinary stream)
-    if not ctx.replay:
+    def witness_failed(name):
+        tb = traceback.format_exc()
+        ctx.log("witness replay raised", tb[-800:])
+        ctx.violation(f"witness replay `{name}` could not be run", {"broken": "witness " + name, "traceback": tb}, found_input=False)
+
+    # dedicated replays of recorded findings (their input classes: see meta/C14.json)
+    if not replay_one_case:
         try:
             rep, counts, want = X.replay_witness()
             ctx.cov["witness_random_alias"] = {"counts_over_identical_calls": counts, "predict": want}
@@ -147,32 +156,37 @@ def run(ctx: Ctx):
                               f"with >= 2 tables identical calls report {sorted(set(counts))} while predict() scores {want}",
                               {"case": X.WITNESS, "implementation": {"post_filter_counts": counts}, "specification": {"predict": want}},
                               {"asymmetric_rule_multi_table": True, "kind": "orientation", "link_type": "link_and_dedupe"})
-            ctx.expect_known("KF-C14-asymmetric-rule-random-alias", rep, "identical calls now agree with predict()")
         except Exception:
-            ctx.log("witness replay raised", traceback.format_exc()[-800:])
+            witness_failed("random alias")
         try:
-            rep, post, want = X.replay_witness_explode()
-            ctx.cov["witness_exploding_count"] = {"post_filter": post, "predict": want}
+            rep, got, want, known_wrong = X.replay_witness_explode()
+            ctx.cov["witness_exploding_count"] = {"pre_post": list(got), "predict": want, "recorded_wrong_pre_post": list(known_wrong)}
             if rep:
-                ctx.violation("count_comparisons_from_blocking_rule ignores arrays_to_explode: post-filter count "
-                              f"{post} but predict() scores {want} pairs for the exploding rule",
-                              {"case": X.WITNESS_EXPLODE, "implementation": {"post_filter": post}, "specification": {"predict": want}},
-                              {"exploding_rule_in_count_comparisons": True, "kind": "exploding_count"})
+                # only the RECORDED wrong answer (arrays compared as whole values) is the known finding;
+                # any other wrong number is a new violation
+                feats = {"kind": "exploding_count", "pre_filter": got[0], "post_filter": got[1]}
+                if got == known_wrong:
+                    feats["exploding_rule_in_count_comparisons"] = True
+                else:
+                    feats["exploding_rule_other_wrong_count"] = True
+                ctx.violation("count_comparisons_from_blocking_rule ignores arrays_to_explode: (pre, post)-filter counts "
+                              f"{got} but predict() scores {want} pairs for the exploding rule"
+                              + ("" if got == known_wrong else f" (and this is not the recorded array-equality answer {known_wrong})"),
+                              {"case": X.WITNESS_EXPLODE, "implementation": {"pre_post": got},
+                               "specification": {"predict": want, "recorded_wrong_pre_post": known_wrong}}, feats)
             ctx.expect_known("KF-C14-count-ignores-explode", rep, "count_comparisons now agrees with predict() for an exploding rule")
         except Exception:
-            ctx.log("witness replay raised", traceback.format_exc()[-800:])
-
+            witness_failed("exploding rule in count_comparisons")
         try:
             rep, first, second, want = X.replay_witness_stale()
             ctx.cov["witness_stale_after_table_replaced"] = {"first": first, "second_without_cleanup": second, "fresh": want}
-            if rep:
+            if rep:      # fixed in /repo 16fdbf82 (FX-C14-stale-after-table-replaced): a regression is a violation
                 ctx.violation("cumulative_comparisons_to_be_scored_from_blocking_rules_data / n_largest_blocks answer from the SQL-keyed "
                               f"table cache after a named input table was replaced (no cleanup call): {second} instead of {want}",
                               {"case": X.WITNESS_STALE, "implementation": {"first": first, "second": second}, "specification": {"second": want}},
                               {"named_table_replaced_without_cleanup": True, "kind": "stale_analysis"})
-            ctx.expect_known("KF-C14-stale-after-table-replaced", rep, "cumulative / n_largest now recompute after the table changed")
         except Exception:
-            ctx.log("witness replay raised", traceback.format_exc()[-800:])
+            witness_failed("stale analysis after table replaced")
 
     terms, owners, labels = [], [], []
     reported, found_any = set(), False
